@@ -11,8 +11,6 @@ contains no appropriate end tag, and (script) what decides about `<!--` (`ctx`) 
 namespace Verif.Proofs.C09HtmlRaw
 open Verif.Spec.C09HtmlTok Verif.Spec.C09HtmlShape Verif.Spec.HtmlAttr Verif.Proofs.C09HtmlTok Verif.Proofs.C09HtmlTag
 
-def rawMode (md : Mode) : Bool := md == .rcdata || md == .rawtext || md == .script
-
 theorem textStep_raw (m : M) (c : Char) (hm : rawMode m.mode = true) :
     textStep m c = if c = '<' then (at_ m .rLt, []) else (at_ m .text, [.char c m.mode.refs]) := by
   obtain ⟨sc, md, la, fo, s0⟩ := m
